@@ -41,7 +41,7 @@ type allocEngine struct{}
 var Engine fw.Engine = allocEngine{}
 
 var v4Sizes = []uint32{1, 2, 3, 63, 64, 65, 127, 128, 129, 256, 4097}
-var v6Shapes = [][2]int{{56, 64}, {60, 68}, {64, 64}, {63, 65}, {62, 66}, {0, 8}, {1, 9}, {120, 127}, {124, 128}, {48, 60}, {58, 64}, {64, 70}, {112, 128}}
+var v6Shapes = [][2]int{{56, 64}, {60, 68}, {64, 64}, {63, 65}, {62, 66}, {0, 8}, {1, 9}, {120, 127}, {124, 128}, {48, 60}, {58, 64}, {64, 70}, {112, 128}, {94, 98}, {92, 100}, {30, 34}, {31, 40}}
 
 func (allocEngine) Gen(rng *rand.Rand, tier string, i int) any {
 	c := &allocCase{Seed: rng.Int63(), Ops: 20 + rng.Intn(181)}
@@ -60,6 +60,16 @@ func (allocEngine) Gen(rng *rand.Rand, tier string, i int) any {
 		c.Start, c.PoolLen, c.Page = "2001:db8::", 31, 64
 		if rng.Intn(2) == 0 {
 			c.Start, c.PoolLen, c.Page = "2001:db8:4000::", 34, 67
+		}
+		return c
+	}
+	if rng.Intn(300) == 0 {
+		// pools no bitmap can hold (2^56 blocks and more): refusing them is fine; accepting them means serving them
+		c.Probe = "v6-unrepresentable"
+		sh := [][2]int{{65, 128}, {64, 127}, {70, 128}, {0, 60}, {8, 64}, {60, 120}}[rng.Intn(6)]
+		c.Start, c.PoolLen, c.Page = "2001:db8::", sh[0], sh[1]
+		if sh[0] < 32 {
+			c.Start = "::"
 		}
 		return c
 	}
@@ -196,6 +206,10 @@ func (allocEngine) Run(ctx *fw.Ctx, cs any) {
 	}
 	if c.Probe == "v6-huge-pool" {
 		probeHugeV6(ctx, c)
+		return
+	}
+	if c.Probe == "v6-unrepresentable" {
+		probeUnrepresentableV6(ctx, c)
 		return
 	}
 	r := &allocRun{ctx: ctx, c: c, rng: rand.New(rand.NewSource(c.Seed)), out: map[uint64]bool{}, classes: map[string]bool{}}
@@ -795,6 +809,36 @@ func min64(a, b uint64) uint64 {
 
 // probeHugeV6: hinted allocations and frees at block indices below, at and above 2^32 in a pool of
 // 2^33 blocks; no drain (the pool cannot be exhausted), the model is the set of outstanding indices.
+// probeUnrepresentableV6: a pool of 2^56 blocks or more. The constructor may refuse it; if it accepts it, the
+// pool is a pool like any other: nothing is outstanding, so an allocation succeeds, a hint deep inside names
+// a free block and gets it, and nothing panics (a panic kills the worker, which the driver reports).
+func probeUnrepresentableV6(ctx *fw.Ctx, c *allocCase) {
+	base := net.ParseIP(c.Start).To16()
+	a, err := bitmap.NewBitmapAllocator(net.IPNet{IP: base, Mask: net.CIDRMask(c.PoolLen, 128)}, c.Page)
+	for _, p := range []string{"C05", "C07"} {
+		ctx.Eval(p, 1)
+	}
+	if err != nil {
+		ctx.Count("alloc.probe.unrepresentable.rejected", 1)
+		return
+	}
+	ctx.Count("alloc.probe.unrepresentable.accepted", 1)
+	desc := fmt.Sprintf("IPv6 pool %s/%d -> /%d (2^%d blocks)", c.Start, c.PoolLen, c.Page, c.Page-c.PoolLen)
+	if got, err := a.Allocate(net.IPNet{}); err != nil {
+		ctx.Viol("C05", "alloc-fails-while-free", "%s was accepted by the constructor; the first Allocate, with nothing outstanding, failed: %v (%s)", desc, err, ipnetStr(got))
+	}
+	deep := append(net.IP{}, base...)
+	deep[c.PoolLen/8] |= 0x40 >> uint(c.PoolLen%8) // a block in the upper half of the pool
+	if c.PoolLen%8 == 7 {
+		deep[c.PoolLen/8+1] |= 0x80
+	}
+	deep = deep.Mask(net.CIDRMask(c.Page, 128))
+	got, err := a.Allocate(net.IPNet{IP: deep, Mask: net.CIDRMask(c.Page, 128)})
+	if err != nil || !got.IP.Equal(deep) {
+		ctx.Viol("C07", "hint-not-honoured", "%s was accepted by the constructor; Allocate(hint %s/%d), a free block, returned %s, %v", desc, deep, c.Page, ipnetStr(got), err)
+	}
+}
+
 func probeHugeV6(ctx *fw.Ctx, c *allocCase) {
 	base := net.ParseIP(c.Start).To16()
 	pool := &model.Pool{Start: new(big.Int).SetBytes(base), N: uint64(1) << uint(c.Page-c.PoolLen), Page: c.Page}
